@@ -720,8 +720,14 @@ def run_c17(chk):
                 if not out or out[-1] != x:
                     out.append(x)
             return out
-        # the RUN call itself executes the first statement
-        first = [int(l.split(" ", 1)[0]) for l in prog]
+        # the RUN call itself executes the first statement of the first STORED line (a program line
+        # that failed to tokenize was never stored: read the keys from the snapshot, not the text)
+        first = []
+        for (op, row) in ops_plain:
+            if row.kind == "row" and op[0] == "line" and op[1] == b"RUN":
+                keys = row.snap().get("lines", "").split("/")[0]
+                first = [int(x) for x in keys.split(",") if x.strip().isdigit()]
+                break
         walked = ([min(first)] if first else []) + walked
         tc, wc = collapse(traced), collapse(walked)
         # a turn that finds the line exhausted advances without entering a statement: such lines
